@@ -271,23 +271,58 @@ def _worker(args):
     return out
 
 
+def _worker_checked(args):
+    """Generate AND check a shard in a worker process; returns what `merge` needs (picklable)."""
+    pid, seed, n, thorough = args
+    EXTRA_EVALS.clear()  # pool workers are reused across shards
+    r = core.Result()
+    scs = _worker((pid, seed, n, thorough))
+    names = CC.MONITORS[pid]
+    for i in range(0, len(scs), 2000):
+        check_batch(pid, scs[i:i + 2000], r, names)
+    return {"evaluations": r.evaluations, "distinct": list(r.distinct), "samples": r.samples, "hist": r.hist, "traces": r.traces_validated,
+            "disagreements": r.disagreements, "monitor_failures": r.monitor_failures, "extra_evals": dict(EXTRA_EVALS)}
+
+
+def merge(res, part):
+    res.evaluations += part["evaluations"]
+    res.distinct.update(part["distinct"])
+    for smp in part["samples"]:
+        res.sample(smp, limit=2)
+    for k, v in part["hist"].items():
+        res.count(k, v)
+    res.traces_validated += part["traces"]
+    res.disagreements.extend(part["disagreements"][: max(0, 3 - len(res.disagreements))])
+    for f in part["monitor_failures"]:
+        if sum(1 for g in res.monitor_failures if g["monitor"] == f["monitor"]) < 3:
+            res.monitor_failures.append(f)
+    for k, v in part.get("extra_evals", {}).items():
+        EXTRA_EVALS[k] = EXTRA_EVALS.get(k, 0) + v
+
+
 def generate_many(ctx, pid, n, thorough):
-    """n scenarios with their implementation traces; sharded over processes in the thorough tier."""
+    """n scenarios with their implementation traces (quick tier: in this process)."""
     base = ctx.rng.randrange(1 << 30)
-    if not thorough or n < 2000:
-        return _worker((pid, base, n, thorough))
+    return _worker((pid, base, n, thorough))
+
+
+def run_random_parallel(ctx, res, pid, n):
+    """Thorough tier: shards generated AND checked in up to 16 worker processes."""
+    base = ctx.rng.randrange(1 << 30)
     workers = min(16, os.cpu_count() or 4)
-    per = (n + workers - 1) // workers
+    shards = workers * 4
+    per = (n + shards - 1) // shards
     with multiprocessing.get_context("fork").Pool(workers) as pool:
-        parts = pool.map(_worker, [(pid, base + 7919 * (i + 1), per, thorough) for i in range(workers)])
-    return [x for p in parts for x in p]
+        for part in pool.imap_unordered(_worker_checked, [(pid, base + 7919 * (i + 1), per, True) for i in range(shards)]):
+            merge(res, part)
 
 
 def run(ctx, res, pid):
     names = CC.MONITORS[pid]
     thorough = ctx.tier == "thorough"
     res.rule = ("scripted environment: the real Consumer over a fake client (any ClientIface result at any time, the real client's cancel outcomes) "
-                "and a step-wise clock; scenarios generated adaptively from ctx.rng in profiles %s (calm/faithful: a broker-like log with gaps, sizes around the "
+                "and a step-wise clock (second stage: the real Consumer over the real KafkaClient over harness/sim/cluster.py, delivered stream and broker-side "
+                "requests checked against the simulated partition log and offset store); scenarios generated adaptively from ctx.rng in profiles %s (calm/faithful: a broker-like log with gaps, sizes around the "
                 "buffer sizes and 1 MiB; commits; storm: stop/shutdown/re-entrant calls everywhere; errors), plus the corpus%s; %s; distinct = by content hash."
                 % ([p for p, _ in PROFILES[pid]], " and bounded-exhaustive enumeration" if thorough else "", RULES[pid]))
     # 1. corpus first
@@ -296,17 +331,23 @@ def run(ctx, res, pid):
     check_batch(pid, scs, res, names)
     res.extra["corpus_scenarios"] = len(corpus)
     # 2. random scenarios
-    n = ctx.scale({"C02": 7000}.get(pid, 12000), {"C02": 200000}.get(pid, 400000))
     t0 = time.time()
-    scs = generate_many(ctx, pid, n, thorough)
-    res.extra["generation_s"] = round(time.time() - t0, 1)
-    for i in range(0, len(scs), 2000):
-        check_batch(pid, scs[i:i + 2000], res, names)
+    if thorough:
+        run_random_parallel(ctx, res, pid, {"C02": 120000}.get(pid, 200000))
+    else:
+        scs = generate_many(ctx, pid, {"C02": 7000}.get(pid, 12000), False)
+        for i in range(0, len(scs), 2000):
+            check_batch(pid, scs[i:i + 2000], res, names)
+    res.extra["random_stage_s"] = round(time.time() - t0, 1)
     # 3. bounded-exhaustive (thorough)
     if thorough:
         from harness.lib import consumer_enum
 
         consumer_enum.run(ctx, res, pid, names)
+    # 4. full stack: the real Consumer over the real KafkaClient over the simulated cluster
+    from harness.lib import consumer_fullstack
+
+    consumer_fullstack.run_stage(ctx, res, pid, ctx.scale(150, 4000))
     res.extra["error_kinds_hit"] = sorted(k for k in res.hist if k.startswith("errkind:"))
     res.extra["log_monitors_evaluated"] = dict(EXTRA_EVALS)
 
@@ -340,6 +381,20 @@ def search(ctx, res, broken, pid):
 def replay(ctx, data, pid):
     f = data.get("failure") or {}
     sc = f.get("scenario")
+    if isinstance(sc, dict) and "fullstack_spec" in sc:
+        from harness.lib import consumer_fullstack
+
+        out, probs, verdicts = consumer_fullstack.replay_spec(sc["fullstack_spec"])
+        print("full-stack replay:", json.dumps(sc["fullstack_spec"]))
+        print("partition log:", out["truth"][:30])
+        print("delivered:", [(e["offsets"]) for e in out["events"] if e["kind"] == "proc"][:40])
+        print("problems:", probs)
+        print("lean monitors:", verdicts)
+        mine = [p for p in probs if p[0] == pid] + [k for k, v in verdicts.items() if v != ["ok"] and k[:3].upper() == pid]
+        if mine:
+            print("VIOLATION property=%s replay=(this file)" % pid)
+            return 1
+        return 0
     if sc is None:
         for b in data.get("no_longer_checks", []):
             if isinstance(b.get("what"), dict) and b["what"].get("scenario"):
